@@ -16,10 +16,10 @@ Import ListNotations.
 Local Open Scope N_scope.
 
 (* ---- switches following /repo (see /verif/patches/fix-C13-*.diff) ---- *)
-Definition FIX_NULL_FIRST : bool := false.   (* add_values NULL scan starts at 0 instead of 1 *)
-Definition FIX_MERGE_PORTS : bool := false.  (* objs[j] = NULL inside if (is_nvswitch(objs[j])) *)
-Definition FIX_BY_NAME_KIND : bool := false. (* get_by_name passes kind 0 instead of KIND_ALL *)
-Definition FIX_XML_KIND_ZERO : bool := false. (* XML import no longer treats kind="0" as a missing attribute *)
+Definition FIX_NULL_FIRST : bool := true.   (* add_values NULL scan starts at 0 instead of 1 *)
+Definition FIX_MERGE_PORTS : bool := true.  (* objs[j] = NULL inside if (is_nvswitch(objs[j])) *)
+Definition FIX_BY_NAME_KIND : bool := true. (* get_by_name passes kind 0 instead of KIND_ALL *)
+Definition FIX_XML_KIND_ZERO : bool := true. (* XML import no longer treats kind="0" as a missing attribute *)
 
 Definition TYPE_NONE : N := HWLOC_OBJ_TYPE_NONE_U.
 Definition two64 : N := 18446744073709551616.
